@@ -8,7 +8,7 @@ import (
 
 func init() {
 	register("C04", runC04, propMeta{
-		Explanation: "Decides, for every rule set, the loop discipline of the sort model and its sorted selected variants: (O1) every sort of rule entities in the product orders by Salience descending on the slice being sorted; (O2) the slice each sequential loop ranges over is the container's SortRules or a local slice on which such a sort lies on every path (except when shorter than 2); (O3, rule A3) exactly one RuleEntity.Execute per iteration on the ranged element, its error tested on every path, the only ways out of the loop are the loop end, `err != nil && !continueOnError -> return non-nil error with nothing else running`, and the stop-tag break; with continue-on-error a failure is appended to the error list on every path to the next iteration; (O4) after the loop a nil error is returned only where the error list is known to be empty and a new error where it is non-empty. The builder's sort that produces SortRules is checked by O1 too. Not decided: that sort.SliceStable sorts (trusted), rule bodies. In the full build no path from the entry to the installing store avoids the sort, except over an edge on which a length test bounds the list to fewer than two rules. The pool's sort-model methods call the engine method of their own name with their own arguments, each in its place (O7). (O8) RuleEntity.Salience, the key of every sort, is stored only by the entity's own Accept method and with the value it is given: no second writer can replace the number written in the rule text.",
+		Explanation: "Decides, for every rule set, the loop discipline of the sort model and its sorted selected variants: (O1) every sort of rule entities in the product orders by Salience descending on the slice being sorted; (O2) the slice each sequential loop ranges over is the container's SortRules or a local slice on which such a sort lies on every path (except when shorter than 2); (O3, rule A3) exactly one RuleEntity.Execute per iteration on the ranged element, its error tested on every path, the only ways out of the loop are the loop end, `err != nil && !continueOnError -> return non-nil error with nothing else running`, and the stop-tag break; with continue-on-error a failure is appended to the error list on every path to the next iteration; (O4) after the loop a nil error is returned only where the error list is known to be empty and a new error where it is non-empty. The builder's sort that produces SortRules is checked by O1 too. Not decided: that sort.SliceStable sorts (trusted), rule bodies. In the full build no path from the entry to the installing store avoids the sort, except over an edge on which a length test bounds the list to fewer than two rules. The pool's sort-model methods call the engine method of their own name with their own arguments, each in its place (O7). (O8) RuleEntity.Salience, the key of every sort, is stored only by the entity's own Accept method and with the value it is given: no second writer can replace the number written in the rule text. (O9) a conc statement returns only after the join of all its branches, so a rule has finished when RuleEntity.Execute returns and the next rule, or the caller, does not run beside it.",
 		Assumptions: []string{"sort.SliceStable is a stable sort by the given less function", "RuleEntity.Execute runs the rule once (C02/C09)"},
 		Trusted:     commonTrusted,
 	})
@@ -85,6 +85,10 @@ func runC04(c *Ctx) {
 		c.Check("O5-failure-reported", "RuleEntity.Execute", ok, f.Pos(), "%s", why)
 	}
 	c.ruleSalienceAsWritten("O8-salience-as-written")
+	// "rules run one at a time": a rule has finished when RuleEntity.Execute returns only if a conc block
+	// in it returns after the join of all its branches (C18-J1) -- a block that leaves on the first failure
+	// lets the next rule start, or the call return, while branches of the failed rule still run
+	c.armConcJoin("O9-rule-complete-when-it-returns")
 	c.Min("O2-incremental-keeps-order", 30)
 	c.Min("O3-loop-discipline", 40)
 	c.Min("O2-order-source", 5)
